@@ -1,0 +1,26 @@
+/*******************************************************************************
+ * tlx/define/verif_probe.hpp
+ *
+ * Reach probes for external verification harnesses. Compiled to nothing unless
+ * TLX_VERIF is defined; then every probe calls the function
+ * tlx_verif_probe(name), which the harness must provide. A probe only counts
+ * that a branch was reached: it never influences behaviour.
+ *
+ * Part of tlx - http://panthema.net/tlx
+ *
+ * All rights reserved. Published under the Boost Software License, Version 1.0
+ ******************************************************************************/
+
+#ifndef TLX_DEFINE_VERIF_PROBE_HEADER
+#define TLX_DEFINE_VERIF_PROBE_HEADER
+
+#if defined(TLX_VERIF)
+extern "C" void tlx_verif_probe(const char* name);
+#define TLX_VERIF_PROBE(name) ::tlx_verif_probe(name)
+#else
+#define TLX_VERIF_PROBE(name) ((void)0)
+#endif
+
+#endif // !TLX_DEFINE_VERIF_PROBE_HEADER
+
+/******************************************************************************/
